@@ -841,8 +841,9 @@ func (e *Evaluator) createSpeculativeObjects(specObj *Cell) (*Cell, error) {
 	return cell, nil
 }
 
-// existingContainer returns the array or object that now exists at the place
-// a placeholder for a missing member stands for, nil if there is none
+// existingContainer returns the value that now exists at the place a
+// placeholder for a missing member stands for (an array or object to store
+// into, or a scalar that refuses the store), nil if there is none
 func existingContainer(placeholder *Value) *Value {
 	if placeholder.Tag != ValueNil || placeholder.ParentObj == nil {
 		return nil
@@ -866,7 +867,7 @@ func existingContainer(placeholder *Value) *Value {
 	if err != nil || member == nil {
 		return nil
 	}
-	if member.Value.Tag != ValueObj && member.Value.Tag != ValueArray {
+	if member.Value.Tag == ValueNil {
 		return nil
 	}
 	return &member.Value
